@@ -1307,6 +1307,98 @@ def run_singles(mon, st):
         pass
 
 
+NSPROV_MOF = '''
+Qualifier Key : boolean = false, Scope(property, reference),
+    Flavor(DisableOverride, ToSubclass);
+Qualifier Description : string = null, Scope(any),
+    Flavor(EnableOverride, ToSubclass, Translatable);
+class CIM_Namespace {
+    [Key] string SystemCreationClassName;
+    [Key] string SystemName;
+    [Key] string ObjectManagerCreationClassName;
+    [Key] string ObjectManagerName;
+    [Key] string CreationClassName;
+    [Key] string Name;
+    uint16 ClassInfo;
+    string DescriptionOfClassInfo;
+    uint16 ClassType;
+    string DescriptionOfClassType;
+};
+'''
+
+
+def run_namespace_provider(mon, st):
+    """Single-object faults through the CIM_Namespace provider (added after
+    seeded change C11-3: CreateInstance/DeleteInstance of CIM_Namespace
+    instances are repository-changing calls like add/remove_namespace)."""
+    conn = st.conn
+    rng = st.rng
+    try:
+        st.touched = True
+        interop = conn.find_interop_namespace()
+        if interop is None:
+            interop = 'interop'
+            conn.add_namespace(interop)
+        try:
+            conn.GetClass('CIM_Namespace', namespace=interop)
+        except CIMError:
+            conn.compile_mof_string(NSPROV_MOF, namespace=interop)
+        conn.install_namespace_provider(interop)
+        insts = conn.EnumerateInstances('CIM_Namespace', namespace=interop)
+    except CaseTimeout:
+        raise
+    except Exception:  # pylint: disable=broad-except
+        mon.ctx.outcome('namespace-provider-not-installable')
+        return
+    st.touched = True
+    mon.ctx.count('namespace-provider-installed')
+
+    def go(api, reason, fn, desc):
+        return mon.faulted(api, reason, fn, desc, tag='namespace-provider')
+
+    nonempty = [i for i in insts
+                if i['Name'].lower() != interop.lower() and
+                i['Name'].lower() in [n.lower() for n in st.s.namespaces]]
+    for inst in nonempty[:2]:
+        go('DeleteInstance', 'cim_namespace-of-non-empty-namespace',
+           lambda inst=inst: conn.DeleteInstance(inst.path),
+           'DeleteInstance(%s) [CIM_Namespace instance of namespace %r, '
+           'which holds objects]' % (inst.path, inst['Name']))
+    if insts:
+        ex = rng.choice(insts)
+        dup = CIMInstance('CIM_Namespace', properties=[
+            (k, v) for k, v in ex.properties.items()])
+        go('CreateInstance', 'cim_namespace-already-exists',
+           lambda: conn.CreateInstance(dup, namespace=interop),
+           'CreateInstance(CIM_Namespace Name=%r) [exists]' % ex['Name'])
+        noname = CIMInstance('CIM_Namespace', properties=[
+            (k, v) for k, v in ex.properties.items() if k.lower() != 'name'])
+        go('CreateInstance', 'cim_namespace-without-name',
+           lambda: conn.CreateInstance(noname, namespace=interop),
+           'CreateInstance(CIM_Namespace without Name)')
+        partial = CIMInstance('CIM_Namespace', properties=[
+            ('Name', st.fresh('newns')), ('CreationClassName', 'CIM_Namespace'),
+            ('NoSuchProperty', 'x')])
+        go('CreateInstance', 'cim_namespace-undeclared-property',
+           lambda: conn.CreateInstance(partial, namespace=interop),
+           'CreateInstance(CIM_Namespace Name=%r with an undeclared '
+           'property)' % partial['Name'])
+        wrongns = CIMInstance('CIM_Namespace', properties=[
+            (k, v) for k, v in ex.properties.items() if k.lower() != 'name'] +
+            [('Name', st.fresh('otherns'))])
+        other = [n for n in st.s.namespaces if n.lower() != interop.lower()]
+        if other:
+            go('CreateInstance', 'cim_namespace-in-non-interop-namespace',
+               lambda: conn.CreateInstance(wrongns, namespace=other[0]),
+               'CreateInstance(CIM_Namespace) in namespace %r' % other[0])
+        mod = CIMInstance('CIM_Namespace', properties=[
+            ('DescriptionOfClassInfo', 'changed')])
+        mod.path = ex.path.copy()
+        go('ModifyInstance', 'cim_namespace',
+           lambda: conn.ModifyInstance(mod),
+           'ModifyInstance(CIM_Namespace Name=%r)' % ex['Name'])
+
+
 def run_case(ctx, i, rng):
     nmax = 4 if ctx.tier == 'quick' else 8
     # cycles through 1..nmax for any worker stride (case i goes to worker
@@ -1323,6 +1415,8 @@ def run_case(ctx, i, rng):
         ctx.cls('namespaces-%d' % len(schema.namespaces))
         run_singles(mon, st)
         run_batches(mon, st, workdir, n)
+        if rng.random() < 0.5:
+            run_namespace_provider(mon, st)
         if i % 7 == 0:
             d = dump(st.conn)
             ctx.sample({'schema': schema.describe(), 'batch_length': n,
